@@ -6,9 +6,19 @@ real rates()/probabilities() code is executed.  The solver proves, for all
 shape > 0, pinv in [0,1), mu > 0: probabilities sum to one and are >= 0, rates
 >= 0, the invariant class has rate exactly 0 and probability pinv, and the
 probability-weighted mean rate equals mu (or 1).
+
+Histories ('hist' tasks): after the first evaluation every non-empty SUBSET of
+the model's parameters (shape / pinv / mu) is replaced by fresh symbols, one
+subset after the other, and after each partial update the clauses are proved
+again on what rates() / probabilities() return then - with the new symbols for
+the updated parameters and the current ones for the untouched parameters - for
+both accessor orders (a cache that is not invalidated by one particular
+parameter, or that is refreshed by only one accessor, breaks "mean rate == the
+supplied mu" / "probability of the invariant class == pinv").
 """
 from __future__ import annotations
 
+import itertools
 import sys
 
 import torch
@@ -47,11 +57,13 @@ def ids_of_any(d, x):
 def run_task(task, tr):
     from torchtree.evolution import site_model as sm
 
+    if task[0] == 'hist':
+        return run_hist(task, tr)
     kind, K, mu, batched = task
     label = f'{kind} K={K} mu={mu} batched={batched}'
     tr.fn(sm.ConstantSiteModel.rates, sm.InvariantSiteModel.update_rates_probs,
           sm.UnivariateDiscretizedSiteModel.update_rates, sm.WeibullSiteModel.inverse_cdf)
-    tr.bounds['categories'] = 'K in 1..6 (quick) / 1..6,8,16 (thorough); shapes [] and [2]; every combination with invariant / mu'
+    tr.bounds['categories'] = 'K in 1..4 (quick) / 1..6,8,16 (thorough); shapes [] and [2]; every combination with invariant / mu'
     B = 2 if batched else 1
     with tracing() as t:
         d = t.dag
@@ -147,6 +159,36 @@ def run_task(task, tr):
                      sig_prefix=f'{kind}:')
 
 
+def concrete_check(kind, K, tag, r, p, pv, m):
+    """independent concrete oracle for one (rates, probabilities) pair; returns a description or None"""
+    exp_cat = {'constant': 1, 'invariant': 2, 'weibull': K, 'weibull+inv': K + 1}[kind]
+    if r is None or p is None:
+        return f'{tag}rates/probabilities not available: {r} {p}'
+    if r.shape[-1] != exp_cat or p.shape[-1] != exp_cat:
+        return f'{tag}number of categories: rates {tuple(r.shape)} probabilities {tuple(p.shape)}, expected {exp_cat}'
+    r = r.to(torch.float64)
+    p = p.to(torch.float64)
+    target = m.reshape(-1) if m is not None else torch.ones(1, dtype=torch.float64)
+    mean = (r * p).sum(-1).reshape(-1)
+    if target.numel() not in (1, mean.numel()) and mean.numel() != 1:
+        return f'{tag}{mean.numel()} rows of rates for {target.numel()} samples'
+    if not torch.allclose(p.sum(-1), torch.ones_like(p.sum(-1)), atol=1e-10):
+        return f'{tag}probabilities {p.tolist()} do not sum to one'
+    if (p < 0).any() or (r < 0).any():
+        return f'{tag}negative rate/probability: rates={r.tolist()} probs={p.tolist()}'
+    if mean.numel() == 1 and target.numel() > 1:
+        mean = mean.expand_as(target)
+    if not torch.allclose(mean, target.expand_as(mean), rtol=1e-9):
+        return f'{tag}mean rate {mean.tolist()} != {target.tolist()} (rates={r.tolist()}, probs={p.tolist()})'
+    if 'inv' in kind:
+        p0 = p[..., 0].reshape(-1)
+        if p0.numel() == 1 and pv.numel() > 1:
+            p0 = p0.expand(pv.numel())
+        if (r[..., 0] != 0).any() or not torch.allclose(p0, pv.reshape(-1).expand_as(p0)):
+            return f'{tag}invariant class: rate {r[..., 0].tolist()} prob {p[..., 0].tolist()} pinv {pv.tolist()}'
+    return None
+
+
 def replay_case(kind, K, mu, batched, vals):
     """the same history on plain tensors: evaluate, update every parameter, probabilities() first, then rates()"""
     site, dic = cm.build(model_json(kind, K, mu))
@@ -167,20 +209,7 @@ def replay_case(kind, K, mu, batched, vals):
         return tns
 
     def check(tag, r, p, pv, m):
-        r = r.to(torch.float64)
-        p = p.to(torch.float64)
-        target = m.reshape(-1) if m is not None else torch.ones(1, dtype=torch.float64)
-        mean = (r * p).sum(-1).reshape(-1)
-        if not torch.allclose(p.sum(-1), torch.ones_like(p.sum(-1)), atol=1e-10):
-            return f'{tag}probabilities {p.tolist()} do not sum to one'
-        if (p < 0).any() or (r < 0).any():
-            return f'{tag}negative rate/probability: rates={r.tolist()} probs={p.tolist()}'
-        if not torch.allclose(mean, target.expand_as(mean), rtol=1e-9):
-            return f'{tag}mean rate {mean.tolist()} != {target.tolist()} (rates={r.tolist()}, probs={p.tolist()})'
-        if 'inv' in kind:
-            if (r[..., 0] != 0).any() or not torch.allclose(p[..., 0].reshape(-1), pv.reshape(-1)):
-                return f'{tag}invariant class: rate {r[..., 0].tolist()} prob {p[..., 0].tolist()} pinv {pv.tolist()}'
-        return None
+        return concrete_check(kind, K, tag, r, p, pv, m)
 
     try:
         setp('shape', 'shape', 0.7, 0, 1e9)
@@ -201,6 +230,247 @@ def replay_case(kind, K, mu, batched, vals):
     return False, 'agree'
 
 
+# ------------------------------------------------------------------ histories of partial updates
+WIT = {'shape': (0.7, 0.05, 0.17), 'pinv': (0.2, 0.03, 0.1), 'mu': (1.3, 0.07, 0.17)}
+RANGE = {'shape': (0, 1e9), 'pinv': (-1e-12, 1), 'mu': (0, 1e9)}
+CLAUSES = {'sum': 'probabilities sum to one', 'nonneg': 'probabilities and rates non-negative',
+           'mean': 'weighted mean rate == the current mu (or 1)',
+           'invclass': 'invariant class has rate exactly 0 and probability equal to the current pinv',
+           'ncat': 'number of categories', 'rows': 'one row of rates per sample'}
+
+
+def param_keys(kind, mu):
+    ks = []
+    if kind.startswith('weibull'):
+        ks.append('shape')
+    if 'inv' in kind:
+        ks.append('pinv')
+    if mu:
+        ks.append('mu')
+    return ks
+
+
+def witness_val(key, s, b):
+    base, per_step, per_row = WIT[key]
+    return base + per_step * s + per_row * b
+
+
+def hist_plan(kind, mu, variant):
+    """-> (order of the first read, [(parameters assigned, in this order, before the read ; accessor order of the read)])
+    accessor order 'rp' = rates() then probabilities(), 'pr' = probabilities() then rates()"""
+    ks = param_keys(kind, mu)
+    subsets = [c for n in range(1, len(ks) + 1) for c in itertools.combinations(ks, n)]
+    if variant in ('rp', 'pr'):
+        # every non-empty subset, canonical assignment order, always the same accessor order
+        return variant, [(S, variant) for S in subsets]
+    if variant == 'alt':
+        # subsets in reverse, assigned in reverse order, accessor order alternating (starts with the other one),
+        # then every single parameter once more (a second update of the same parameter)
+        steps = [(tuple(reversed(S)), 'pr' if i % 2 == 0 else 'rp') for i, S in enumerate(reversed(subsets))]
+        steps += [((k,), 'rp' if i % 2 == 0 else 'pr') for i, k in enumerate(ks)]
+        return 'rp', steps
+    if variant == 'perm':
+        # every assignment order of every subset with >= 2 parameters; singles twice in a row
+        steps = []
+        i = 0
+        for S in subsets:
+            perms = list(itertools.permutations(S)) if len(S) > 1 else [S, S]
+            for P in perms:
+                steps.append((P, 'rp' if i % 2 == 0 else 'pr'))
+                i += 1
+        return 'pr', steps
+    raise ValueError(variant)
+
+
+def read_pair(site, order):
+    if order == 'rp':
+        r = site.rates()
+        p = site.probabilities()
+    else:
+        p = site.probabilities()
+        r = site.rates()
+    return r, p
+
+
+def clause_goals(d, kind, K, B, batched, rates, probs, cur):
+    """[(clause key, row, bool node)] for one (rates, probabilities) pair; cur[key] = node ids of the current
+    parameter values (one per row)"""
+    if not isinstance(rates, torch.Tensor) or not isinstance(probs, torch.Tensor):
+        return [('ncat', 0, d.FALSE)]
+    ri = ids_of_any(d, rates)
+    pi = ids_of_any(d, probs)
+    ncat = ri.shape[-1] if ri.dim() else 0
+    exp_cat = {'constant': 1, 'invariant': 2, 'weibull': K, 'weibull+inv': K + 1}[kind]
+    if ncat != exp_cat or pi.dim() == 0 or pi.shape[-1] != exp_cat:
+        return [('ncat', 0, d.FALSE)]
+    rrows = ri.reshape(-1, ncat).tolist()
+    prows = pi.reshape(-1, ncat).tolist()
+    if len(prows) == 1 and len(rrows) > 1:
+        prows = prows * len(rrows)
+    if len(rrows) == 1 and len(prows) > 1:
+        rrows = rrows * len(prows)
+    if (batched and len(rrows) != B) or len(rrows) != len(prows):
+        return [('rows', 0, d.FALSE)]
+    out = []
+    for b, (rr, pp) in enumerate(zip(rrows, prows)):
+        s = 0
+        m = 0
+        for r, p in zip(rr, pp):
+            s = d.add(s, p)
+            m = d.add(m, d.mul(p, r))
+        out.append(('sum', b, d.eq(s, 1)))
+        out.append(('nonneg', b, d.and_(*([d.le(0, p) for p in pp] + [d.le(0, r) for r in rr]))))
+        out.append(('mean', b, d.eq(m, cur['mu'][b] if 'mu' in cur else 1)))
+        if 'inv' in kind:
+            out.append(('invclass', b, d.and_(d.eq(rr[0], 0), d.eq(pp[0], cur['pinv'][b]))))
+    return out
+
+
+def run_hist(task, tr):
+    from torchtree.evolution import site_model as sm
+
+    _, kind, K, mu, batched, variant = task
+    label = f'history[{variant}] {kind} K={K} mu={mu} batched={batched}'
+    tr.fn(sm.SiteModel.handle_parameter_changed, sm.ConstantSiteModel.rates, sm.ConstantSiteModel.probabilities,
+          sm.InvariantSiteModel.rates, sm.InvariantSiteModel.probabilities, sm.InvariantSiteModel.update_rates_probs,
+          sm.UnivariateDiscretizedSiteModel.rates, sm.UnivariateDiscretizedSiteModel.probabilities,
+          sm.UnivariateDiscretizedSiteModel.update_rates, sm.WeibullSiteModel.inverse_cdf)
+    # a subclass may override the listener: record what the models under test really run
+    for cls in (sm.ConstantSiteModel, sm.InvariantSiteModel, sm.WeibullSiteModel):
+        tr.fn(cls.handle_parameter_changed)
+    tr.bounds['histories'] = (
+        'first evaluation, then a chain of partial updates: every non-empty subset of the model\'s parameters '
+        '{shape, pinv, mu} is replaced by fresh symbols through Parameter.tensor (one subset per step, <= 7 steps '
+        'quick), the clauses are proved after every step for the values then current; accessor orders '
+        'rates()->probabilities() and probabilities()->rates(); single and batched [2,1] parameters (all of one kind); '
+        'quick: Weibull K=2, chains rp / pr; thorough: chains rp / pr for K in 1,2,3,5 and, at K=2, chains alt (reverse '
+        'subsets, reverse assignment order, alternating accessor order, repeated single updates) / perm (all assignment '
+        'orders of each subset, every single update twice in a row). '
+        'Each step starts from the state the previous step left (both accessors called); histories in which a '
+        'parameter changes without a change event (in-place edits of .tensor) and to()/cpu()/cuda() are not covered')
+    tr.assumptions.add('histories: a parameter is updated by assigning Parameter.tensor (the public setter, which fires the '
+                       'change event the site model listens to); new values are fresh symbols in the admissible domain, '
+                       'unrelated to the previous ones')
+    B = 2 if batched else 1
+    first, steps = hist_plan(kind, mu, variant)
+    keys = param_keys(kind, mu)
+    with tracing() as t:
+        d = t.dag
+        site, dic = cm.build(model_json(kind, K, mu))
+        allv = {}   # every history variable: name -> node
+        cur = {}    # key -> node ids of the current value (one per row)
+        dom = []
+
+        def assign(key, s):
+            vals = torch.tensor([[witness_val(key, s, b)] for b in range(B)] if batched else [witness_val(key, s, 0)],
+                                dtype=torch.float64)
+            st = cm.symbolize(dic[key], f'{key}_h{s}', vals)
+            ids = st._ids.reshape(-1).tolist()
+            cur[key] = ids
+            for i in ids:
+                allv[d.args[i][0]] = i
+                if key == 'pinv':
+                    dom.extend([d.le(0, i), d.lt(i, 1)])
+                else:
+                    dom.append(d.lt(0, i))
+
+        def decide(s, S, order, r, p):
+            what = 'first evaluation' if s == 0 else 'after update of ' + '+'.join(S)
+            cg = clause_goals(d, kind, K, B, batched, r, p, cur)
+            goals = []
+            for clause, b, node in cg:
+                sig = f'{kind}:history:{"fresh" if s == 0 else "update[" + "+".join(sorted(S)) + "]"}:{clause}'
+                goals.append((f'step {s} ({what}; read {order}) sample {b}: {CLAUSES[clause]}', node, [], sig))
+            ax = ground_axioms(d, [g[1] for g in goals])
+            vn = dict(allv)
+
+            def replay(vals, s=s):
+                return replay_hist(kind, K, mu, batched, variant, vals, upto=s)
+
+            cm.discharge(tr, d, dom + ax + list(t.pcs), goals, label, replay=replay, timeout=40.0, varnodes=vn,
+                         sig_prefix=f'{kind}:history:', defined=False)
+            return [g[0] for g in goals]
+
+        try:
+            for k in keys:
+                assign(k, 0)
+            r, p = read_pair(site, first)
+            shown = decide(0, (), first, r, p)
+            for s, (S, order) in enumerate(steps, start=1):
+                for k in S:
+                    assign(k, s)
+                r, p = read_pair(site, order)
+                decide(s, S, order, r, p)
+                tr.regions += 1
+        except Exception as e:
+            ok, detail = replay_hist(kind, K, mu, batched, variant, {}, upto=None)
+            if ok:
+                tr.violation(f'{kind}:history:raises', f'{label}: raises {type(e).__name__}: {e}; concrete: {detail}',
+                             {'label': label})
+            else:
+                tr.inconc(f'{label}: symbolic run raised {type(e).__name__}: {e}, the concrete history does not')
+            return
+        tr.witness_runs += 1
+        tr.ops_checked += t.nchecked
+        tr.sample({'case': label, 'steps': [['+'.join(S), o] for S, o in steps], 'goals first read': shown[:4]})
+        # well-definedness of everything the chain computed (denominators 1-pinv, the normalising mean, 1/shape)
+        cm.discharge(tr, d, dom + ground_axioms(d, list(t.denominators)) + list(t.pcs), [], label,
+                     replay=lambda vals: replay_hist(kind, K, mu, batched, variant, vals, upto=None, finite_only=True),
+                     timeout=40.0, varnodes=dict(allv), sig_prefix=f'{kind}:history:', defined=True)
+
+
+def replay_hist(kind, K, mu, batched, variant, vals, upto=None, finite_only=False):
+    """the same chain on plain tensors; upto=s: only the read of step s is judged (None: every read)"""
+    B = 2 if batched else 1
+    first, steps = hist_plan(kind, mu, variant)
+    keys = param_keys(kind, mu)
+    curv = {}
+
+    def assign(dic, key, s):
+        rows = []
+        lo, hi = RANGE[key]
+        for b in range(B):
+            nm = f'{key}_h{s}[{b},0]' if batched else f'{key}_h{s}[0]'
+            v = vals.get(nm, None)
+            if v is None or not (lo < v < hi):
+                v = witness_val(key, s, b)
+            rows.append([v] if batched else v)
+        tns = torch.tensor(rows, dtype=torch.float64)
+        dic[key].tensor = tns
+        curv[key] = tns
+
+    def judge(s, S, order, r, p):
+        if finite_only:
+            if not (torch.isfinite(r).all() and torch.isfinite(p).all()):
+                return f'step {s}: non-finite rates/probabilities {r.tolist()} {p.tolist()}'
+            return None
+        tag = f'step {s} ({"first evaluation" if s == 0 else "after update of " + "+".join(S)}; read {order}): '
+        return concrete_check(kind, K, tag, r, p, curv.get('pinv'), curv.get('mu'))
+
+    try:
+        site, dic = cm.build(model_json(kind, K, mu))
+        for k in keys:
+            assign(dic, k, 0)
+        r, p = read_pair(site, first)
+        if upto in (None, 0):
+            bad = judge(0, (), first, r, p)
+            if bad:
+                return True, bad
+        for s, (S, order) in enumerate(steps, start=1):
+            if upto is not None and s > upto:
+                break
+            for k in S:
+                assign(dic, k, s)
+            r, p = read_pair(site, order)
+            if upto in (None, s):
+                bad = judge(s, S, order, r, p)
+                if bad:
+                    return True, bad
+    except Exception as e:
+        return True, f'raises {type(e).__name__}: {e}'
+    return False, 'agree'
+
+
 def tasks_for(tier):
     ts = []
     Ks = [1, 2, 3, 4] if tier == 'quick' else [1, 2, 3, 4, 5, 6, 8, 16]
@@ -212,13 +482,29 @@ def tasks_for(tier):
             for K in Ks:
                 ts.append(('weibull', K, mu, batched))
                 ts.append(('weibull+inv', K, mu, batched))
+    # histories of partial parameter updates
+    variants = ['rp', 'pr'] if tier == 'quick' else ['rp', 'pr', 'alt', 'perm']
+    for variant in variants:
+        # the cache logic does not depend on the category count: the long chains run at K=2 only
+        hK = [2] if tier == 'quick' or variant in ('alt', 'perm') else [1, 2, 3, 5]
+        for batched in (False, True):
+            for mu in (False, True):
+                if mu:
+                    ts.append(('hist', 'constant', 1, True, batched, variant))
+                ts.append(('hist', 'invariant', 1, mu, batched, variant))
+                for K in hK:
+                    ts.append(('hist', 'weibull', K, mu, batched, variant))
+                    ts.append(('hist', 'weibull+inv', K, mu, batched, variant))
     return ts
 
 
 def body(chk):
     chk.explanation = ('symbolic execution of the real site-model code on symbolic shape / invariant proportion / mu; '
                        'the normalisation identities are rational identities in the uninterpreted pow(q_k, 1/shape) '
-                       'atoms and are decided by the solver for all admissible parameter values')
+                       'atoms and are decided by the solver for all admissible parameter values; the same clauses are '
+                       'decided again after every partial update (each non-empty subset of shape / pinv / mu replaced by '
+                       'fresh symbols) along chains of updates, for both accessor orders, so that a cache which one '
+                       'parameter fails to invalidate is a solver counterexample (stale mu != current mu)')
     chk.total.assumptions |= {'pow(base, 1/shape) with constant positive base is uninterpreted, constrained by pow > 0'}
     pmap(run_task, tasks_for(chk.tier), chk.total)
 
